@@ -8,6 +8,9 @@
 (*                                                                         *)
 (* One action per critical section of the code:                            *)
 (*   Alloc     next_id.fetch_add                                           *)
+(*   AllocF    forward_message: the caller brings its own id (async client);*)
+(*             the counter is not touched; registering an id that is in    *)
+(*             flight is refused (AlreadyExists) and changes nothing       *)
 (*   Register  pending.insert (under the pending lock) - BEFORE the write  *)
 (*   Write     writer lock, write + flush (fails once the writer is shut)  *)
 (*   Recv      the reader takes the next frame off the wire                *)
@@ -32,7 +35,9 @@ CONSTANTS Callers,        \* set of caller ids
           AllowTimeout,   \* may callers time out
           AllowCancel,    \* may callers be cancelled (async / ws)
           HasNotify,      \* WebSocket client: notify frames and a subscriber exist
-          ShutFirst       \* fail_all_pending shuts the writer before draining (as built)
+          ShutFirst,      \* fail_all_pending shuts the writer before draining (as built)
+          Forwarders,     \* callers that use forward_message: the request id is THEIRS, not drawn from the counter
+          ForwardRewinds  \* FALSE as built; TRUE: forwarding resets the counter to id + 1 (must violate DistinctIds)
 
 VARIABLES nextId, pending, pc, cid, chan, result,
           c2s, s2c,          \* the two directions of the wire (sequences of frames)
@@ -46,8 +51,11 @@ vars == <<nextId, pending, pc, cid, chan, result, c2s, s2c, seen, answered, junk
 
 NoFrame == [kind |-> "none", id |-> 0, tag |-> 0]
 Frame(k, i, t) == [kind |-> k, id |-> i, tag |-> t]
-Owner(id) == CHOOSE c \in Callers : cid[c] = id /\ pc[c] \in {"registered", "waiting"}
-HasOwner(id) == \E c \in Callers : cid[c] = id /\ pc[c] \in {"registered", "waiting"}
+\* the waiter behind a pending entry: the caller with that id that has registered and has not been served yet (a
+\* forwarded request may carry the id of an earlier call that already has its response)
+Owns(c, id) == cid[c] = id /\ pc[c] \in {"registered", "waiting"} /\ chan[c] = <<>>
+Owner(id) == CHOOSE c \in Callers : Owns(c, id)
+HasOwner(id) == \E c \in Callers : Owns(c, id)
 
 Init == /\ nextId = 1 /\ pending = {} /\ pc = [c \in Callers |-> "idle"] /\ cid = [c \in Callers |-> 0]
         /\ chan = [c \in Callers |-> <<>>] /\ result = [c \in Callers |-> [cls |-> "none", id |-> 0, tag |-> 0]]
@@ -55,14 +63,26 @@ Init == /\ nextId = 1 /\ pending = {} /\ pc = [c \in Callers |-> "idle"] /\ cid 
         /\ writerShut = FALSE /\ reader = "alive" /\ notes = <<>> /\ subEnded = FALSE
 
 \* ---- callers
-Alloc(c) == /\ pc[c] = "idle"
+Alloc(c) == /\ pc[c] = "idle" /\ c \notin Forwarders
             /\ cid' = [cid EXCEPT ![c] = nextId] /\ nextId' = nextId + 1
             /\ pc' = [pc EXCEPT ![c] = "allocated"]
             /\ UNCHANGED <<pending, chan, result, c2s, s2c, seen, answered, junk, cur, writerShut, reader, notes, subEnded>>
-Register(c) == /\ pc[c] = "allocated"
-               /\ pending' = pending \cup {cid[c]} /\ pc' = [pc EXCEPT ![c] = "registered"]
-               /\ UNCHANGED <<nextId, cid, chan, result, c2s, s2c, seen, answered, junk, cur, writerShut, reader, notes, subEnded>>
+\* a forwarded request carries an id of the caller's choosing: one that a finished call used (its late response may
+\* still arrive), one in flight (to be refused), or one the counter has not reached.  Ids handed out by Alloc but not yet
+\* registered are left alone: colliding with those is the forwarding application's own mistake.
+ForwardIds == {cid[d] : d \in {e \in Callers : pc[e] \in {"registered", "waiting", "done"} /\ cid[e] # 0}} \cup {nextId + 5}
+AllocF(c) == /\ pc[c] = "idle" /\ c \in Forwarders
+             /\ \E id \in ForwardIds :
+                  /\ cid' = [cid EXCEPT ![c] = id]
+                  /\ nextId' = IF ForwardRewinds THEN id + 1 ELSE nextId
+             /\ pc' = [pc EXCEPT ![c] = "allocated"]
+             /\ UNCHANGED <<pending, chan, result, c2s, s2c, seen, answered, junk, cur, writerShut, reader, notes, subEnded>>
 Done(c, r) == /\ pc' = [pc EXCEPT ![c] = "done"] /\ result' = [result EXCEPT ![c] = r]
+Register(c) == /\ pc[c] = "allocated"
+               /\ IF c \in Forwarders /\ cid[c] \in pending
+                  THEN /\ Done(c, [cls |-> "exists", id |-> 0, tag |-> 0]) /\ UNCHANGED pending      \* refused: nothing changes
+                  ELSE /\ pending' = pending \cup {cid[c]} /\ pc' = [pc EXCEPT ![c] = "registered"] /\ UNCHANGED result
+               /\ UNCHANGED <<nextId, cid, chan, c2s, s2c, seen, answered, junk, cur, writerShut, reader, notes, subEnded>>
 \* a write fails for certain once fail_all_pending has shut the writer; it MAY already fail as soon as the peer has
 \* closed or broken the connection (the WebSocket transport refuses writes after the peer's close, TCP may reset)
 FaultKinds == {"close", "malformed"}
@@ -139,7 +159,7 @@ Fail1 == /\ reader = "failing1" /\ (IF ShutFirst THEN DoShut ELSE DoDrain) /\ re
 Fail2 == /\ reader = "failing2" /\ (IF ShutFirst THEN DoDrain ELSE DoShut) /\ reader' = "dead"
          /\ UNCHANGED <<nextId, pc, cid, result, c2s, s2c, seen, answered, junk, cur, notes>>
 
-CallerStep == \E c \in Callers : Alloc(c) \/ Register(c) \/ Write(c) \/ Take(c) \/ Timeout(c) \/ Cancel(c)
+CallerStep == \E c \in Callers : Alloc(c) \/ AllocF(c) \/ Register(c) \/ Write(c) \/ Take(c) \/ Timeout(c) \/ Cancel(c)
 ServerStep == SrvRead \/ (\E id \in seen : SrvReply(id)) \/ (\E f \in JunkFrames : SrvJunk(f)) \/ (\E k \in {"close", "malformed"} : SrvFault(k)) \/ NetReset
 ReaderStep == Recv \/ Dispatch \/ Fail1 \/ Fail2
 Next == CallerStep \/ ServerStep \/ ReaderStep
@@ -149,11 +169,16 @@ FairSpec == Spec /\ WF_vars(ReaderStep) /\ \A c \in Callers : WF_vars(Take(c) \/
 --------------------------------------------------------------------------------
 \* C04
 Correlated == \A c \in Callers : result[c].cls = "ok" => (result[c].id = cid[c] /\ result[c].tag = cid[c])
-DistinctIds == \A a, b \in Callers : (a # b /\ cid[a] # 0 /\ cid[b] # 0) => cid[a] # cid[b]
+\* ids the client itself issued (Alloc) are pairwise distinct over the connection's life, forwarding or not
+DistinctIds == \A a, b \in Callers \ Forwarders : (a # b /\ cid[a] # 0 /\ cid[b] # 0) => cid[a] # cid[b]
+\* a refused forward leaves no trace: its id is still owned by whoever had it
+RefusedForwardHarmless == \A c \in Forwarders : (pc[c] = "done" /\ result[c].cls = "exists") => cid[c] \in pending \/ \E d \in Callers \ {c} : cid[d] = cid[c]
 NotifyOnlyToSubscriber == \A c \in Callers : result[c].cls = "ok" => result[c].tag # 98
 ChanAtMostOne == \A c \in Callers : Len(chan[c]) <= 1
 \* C06
-NoResidue == \A c \in Callers : (pc[c] = "done" /\ result[c].cls # "ok") => cid[c] \notin pending
+\* (an id may be in the map again on behalf of a LATER forwarded request that chose the same id)
+OwnedByOther(c) == \E d \in Callers \ {c} : cid[d] = cid[c] /\ pc[d] \in {"registered", "waiting"}
+NoResidue == \A c \in Callers : (pc[c] = "done" /\ result[c].cls # "ok") => (cid[c] \notin pending \/ OwnedByOther(c))
 \* once the reader is dead every waiting caller already has its verdict: nobody can hang
 WaiterHasFuture == reader = "dead" => \A c \in Callers : pc[c] = "waiting" => chan[c] # <<>>
 DeadMeansDrained == reader = "dead" => (pending \subseteq {cid[c] : c \in {d \in Callers : pc[d] = "registered"}} /\ subEnded /\ writerShut)
